@@ -2,13 +2,33 @@ package c17
 
 import (
 	"fmt"
+	"sort"
 	"strings"
 )
 
 // testProgram renders cmd/t/main.go: a reflective driver (static text) plus the list of root types.
-func testProgram(roots []string, seed uint64, trials int) string {
+//
+// tparamFields: generic struct name -> its fields whose type is a bare type parameter.  The generated method of a generic
+// struct can only assign such a field (out.F = in.F; T has no methods), so when the type ARGUMENT is a map, a slice-carrying
+// struct ... the container behind it is shared between copy and original: known finding type_argument_with_containers.
+// To tell that finding from every other way of sharing a container, the copy is mutated in two passes: first every
+// container that is NOT reached through a type-parameter field (verdicts unchanged / into_unchanged), then the containers
+// reached through one (verdict tp_unchanged).
+func testProgram(roots []string, seed uint64, trials int, tparamFields map[string][]string) string {
 	var b strings.Builder
 	b.WriteString(progHead)
+	b.WriteString("\nvar tparamFields = map[string]bool{\n")
+	var keys []string
+	for g, fs := range tparamFields {
+		for _, f := range fs {
+			keys = append(keys, g+"."+f)
+		}
+	}
+	sort.Strings(keys)
+	for _, k := range keys {
+		fmt.Fprintf(&b, "\t%q: true,\n", k)
+	}
+	b.WriteString("}\n")
 	fmt.Fprintf(&b, "\nconst baseSeed uint64 = %d\nconst trials = %d\n\nvar roots = []any{\n", seed, trials)
 	for _, r := range roots {
 		fmt.Fprintf(&b, "\t%s,\n", r)
@@ -215,11 +235,47 @@ func bump(v reflect.Value) {
 
 // mutate appends to / assigns into every slice and map reachable from v through struct fields (any depth),
 // and assigns every scalar field.  containers counts the slices and maps touched, depth the deepest one.
+//
+// A field whose declared type is a bare type parameter of a generic struct (tparamFields) is assigned by the generated
+// method whatever the type argument is.  pass 0 mutates everything except the containers below such a field, pass 1 only
+// the containers below such a field (see testProgram).
 func mutate(v reflect.Value, depth int, containers *int, maxDepth *int) {
+	mutateS(v, depth, containers, maxDepth, false, 0)
+}
+
+func mutateTP(v reflect.Value) {
+	c, d := 0, 0
+	mutateS(v, 0, &c, &d, false, 1)
+}
+
+func originName(t reflect.Type) string {
+	n := t.Name()
+	if i := strings.IndexByte(n, '['); i >= 0 {
+		return n[:i]
+	}
+	return n
+}
+
+func mutateS(v reflect.Value, depth int, containers *int, maxDepth *int, shared bool, pass int) {
+	mutate := func(v reflect.Value, depth int, containers *int, maxDepth *int) {
+		mutateS(v, depth, containers, maxDepth, shared, pass)
+	}
+	switch v.Kind() {
+	case reflect.Slice, reflect.Map, reflect.Pointer:
+		if shared != (pass == 1) {
+			return
+		}
+	case reflect.Struct, reflect.Interface:
+	default:
+		if pass == 1 {
+			return
+		}
+	}
 	switch v.Kind() {
 	case reflect.Struct:
+		on := originName(v.Type())
 		for i := 0; i < v.NumField(); i++ {
-			mutate(v.Field(i), depth+1, containers, maxDepth)
+			mutateS(v.Field(i), depth+1, containers, maxDepth, shared || tparamFields[on+"."+v.Type().Field(i).Name], pass)
 		}
 	case reflect.Slice:
 		*containers++
@@ -308,6 +364,7 @@ type verdict struct {
 	Unchanged     bool   ` + "`json:\"unchanged\"`" + `
 	IntoEqual     bool   ` + "`json:\"into_equal\"`" + `
 	IntoUnchanged bool   ` + "`json:\"into_unchanged\"`" + `
+	TPUnchanged   bool   ` + "`json:\"tp_unchanged\"`" + `
 	ObjectOK      bool   ` + "`json:\"object_ok\"`" + `
 	Containers    int    ` + "`json:\"containers\"`" + `
 	Depth         int    ` + "`json:\"depth\"`" + `
@@ -343,6 +400,7 @@ func checkRoot(root any) (vd verdict) {
 	vd.HasInto = zr.MethodByName("DeepCopyInto").IsValid()
 	vd.HasObject = zr.MethodByName("DeepCopyObject").IsValid()
 	vd.NilNil, vd.Equal, vd.Unchanged, vd.IntoEqual, vd.IntoUnchanged, vd.ObjectOK = true, true, true, true, true, true
+	vd.TPUnchanged = true
 	if vd.HasCopy {
 		res := mc.Call(nil)
 		vd.NilNil = len(res) == 1 && res[0].IsNil()
@@ -395,6 +453,11 @@ func checkRoot(root any) (vd verdict) {
 				if vd.Detail == "" {
 					vd.Detail = "after mutating the copy the original is " + dumps(orig, true) + ", was " + dumps(snap, true)
 				}
+			} else if mutateTP(elem(cp)); dumps(orig, true) != dumps(snap, true) {
+				vd.TPUnchanged = false
+				if vd.Detail == "" {
+					vd.Detail = "after mutating the containers behind type-parameter fields of the copy the original is " + dumps(orig, true) + ", was " + dumps(snap, true)
+				}
 			}
 		}
 		if vd.HasInto {
@@ -421,6 +484,8 @@ func checkRoot(root any) (vd verdict) {
 			mutate(elem(out), 0, &c, &d)
 			if dumps(orig, true) != dumps(snap, true) {
 				vd.IntoUnchanged = false
+			} else if mutateTP(elem(out)); dumps(orig, true) != dumps(snap, true) {
+				vd.TPUnchanged = false
 			}
 		}
 		if vd.HasObject {
